@@ -1,0 +1,52 @@
+//go:build verif
+// +build verif
+
+package command
+
+import (
+	"net"
+
+	"github.com/v-byte-cpu/sx/pkg/scan"
+)
+
+// Exports for the verification harness (build tag "verif"); add-only, no behaviour change.
+
+// VerifIfaceResult is what the option code of the IP-level packet commands (icmp/tcp/udp) decides
+// about the outgoing interface and the source of the probes.
+type VerifIfaceResult struct {
+	Range      *scan.Range
+	VPNMode    bool
+	GatewayMAC net.HardwareAddr
+}
+
+// VerifIPScanParseOptions runs the raw-flag parsing (--iface by name, --srcmac as text) and then
+// ipScanCmdOpts.parseOptions exactly as the icmp/tcp/udp commands do: target parsing, getScanRange,
+// the vpn-mode rule, ARP cache loading and the default-gateway lookup.
+func VerifIPScanParseOptions(rawIface string, srcIP net.IP, rawSrcMAC, ipFile, arpCacheFile string,
+	args []string) (*VerifIfaceResult, error) {
+	o := ipScanCmdOpts{
+		packetScanCmdOpts: packetScanCmdOpts{rawInterface: rawIface, srcIP: srcIP, rawSrcMAC: rawSrcMAC},
+		ipFile:            ipFile, arpCacheFile: arpCacheFile,
+	}
+	if err := o.parseRawOptions(); err != nil {
+		return nil, err
+	}
+	if err := o.parseOptions("verif", args); err != nil {
+		return nil, err
+	}
+	return &VerifIfaceResult{Range: o.scanRange, VPNMode: o.vpnMode, GatewayMAC: o.gatewayMAC}, nil
+}
+
+// VerifPacketScanRange runs the raw-flag parsing and getScanRange of the plain packet commands (arp).
+func VerifPacketScanRange(rawIface string, srcIP net.IP, rawSrcMAC string, dst *net.IPNet) (*scan.Range, error) {
+	o := packetScanCmdOpts{rawInterface: rawIface, srcIP: srcIP, rawSrcMAC: rawSrcMAC}
+	if err := o.parseRawOptions(); err != nil {
+		return nil, err
+	}
+	return o.getScanRange(dst)
+}
+
+// the error values of the option code (compared by identity in the harness)
+func VerifErrSrcInterface() error { return errSrcInterface }
+func VerifErrSrcIP() error        { return errSrcIP }
+func VerifErrSrcMAC() error       { return errSrcMAC }
